@@ -39,5 +39,8 @@ package archiver
 //@   ensures [sent-own] @C05 http.lastSentTarget() == http.reqTarget(old(item.url.request)) // C05: the only request sent for a node is the one the preprocessor attached to it
 //@   loop retry invariant [bodies-closed] @C16 http.nOpened() - io.nCloses() == old(http.nOpened() - io.nCloses()) // C16: retry paths drain and close response bodies
 //@   ensures [one-body-left] @C16 http.nOpened() - io.nCloses() <= old(http.nOpened() - io.nCloses()) + 1 // C16: no response body ... remains open (at most the accepted response, handed to the post-processor which closes it)
+//@   local fbWaited int = 0
+//@   after recv(feedbackChan)#1: fbWaited = 1
+//@   assert SetStatus(item)#4: [after-feedback] @C02 config.config.WARCWriteAsync || fbWaited == 1 // C02: with synchronous WARC writing the URL is marked archived only after the WARC writer signalled that the records are written
 //@   ensures [retry-bound] attempts <= old(attempts) + old(config.config.MaxRetry) + 1 // C06: each URL is attempted at most --max-retry + 1 times per visit
 //@   ensures [attempted] attempts >= old(attempts) + 1
